@@ -16,3 +16,11 @@ Definition limits (white black moves c : Z) : Z * Z :=
   let mv := if 0 <? moves then Z.min moves max_moves_to_go + 1 else 40 in
   let soft := Z.quot remainder (wrap64 (2 * mv)) in
   (soft, wrap64 (3 * soft)).
+
+(** uci.go, `go wtime <n> btime <n> movestogo <n>`: strconv.Atoi accepts exactly the decimal strings of
+    an int (64 bit here), and the clock becomes `time.Millisecond * time.Duration(n)`: an int64 product
+    that wraps silently. [go_limits] is what EnforceTimeControl hands to time.AfterFunc for a go line
+    with these numbers. *)
+Definition go_duration (ms : Z) : Z := wrap64 (1000000 * ms).
+Definition go_limits (wms bms moves c : Z) : Z * Z :=
+  limits (go_duration wms) (go_duration bms) moves c.
